@@ -32,6 +32,8 @@ type Action struct {
 	I int       `json:"i,omitempty"` // integer parameter (style, mode, font index, ...)
 	S gen.Hex   `json:"s,omitempty"` // string / tag / image data
 	D []gen.KV  `json:"d,omitempty"` // inline image dictionary
+	// Sub is the call sequence run inside Build(func(b *Builder) error {...}).
+	Sub []Action `json:"sub,omitempty"`
 }
 
 // BCase is a call sequence for a Builder of a page content stream.
@@ -46,6 +48,7 @@ type BCase struct {
 	segments   int
 	text       []byte
 	maxNesting int
+	events     map[string]bool
 }
 
 // ---------------------------------------------------------------------------
@@ -78,6 +81,10 @@ func (m *model) clone() *model {
 	c.saved = append([]savedBits(nil), m.saved...)
 	return &c
 }
+
+// reset is what Reset (and the Reset inside Build) does to the model: the
+// initial state of a page content stream, for the same target version.
+func (m *model) reset() { *m = model{v2: m.v2, obj: ctxPage} }
 
 func (m *model) balanced() bool { return m.obj == ctxPage && len(m.nest) == 0 }
 
@@ -175,6 +182,10 @@ func (m *model) step(a *Action) (verdict, []item, string) {
 
 	switch a.M {
 	case "Harvest":
+		return accept, nil, ""
+
+	case "Reset":
+		m.reset()
 		return accept, nil, ""
 
 	case "PushGraphicsState":
@@ -608,60 +619,231 @@ func native(o pdf.Object) pdf.Object {
 	}
 }
 
+// group collects the segments harvested between two resets.  Within a group
+// the graphics state continues from segment to segment, so the segments
+// joined by page.SegmentsReader form one content stream.
+type group struct {
+	segs  []*content.Operators
+	items []item // what the calls behind the harvested segments must have emitted
+	final bool   // the group ends with the final Harvest: balance is asserted
+}
+
+// runner drives one Builder and the model side by side.
+type runner struct {
+	c       *BCase
+	b       *builder.Builder
+	m       *model
+	fs      *fontSet
+	cur     group
+	pending []item // emitted since the last Harvest / Reset
+	done    []group
+	resets  int  // Reset and Build calls so far
+	stop    bool // the case ended early (rejected or unmodelled)
+}
+
+func (r *runner) event(name string) {
+	if r.resets > 0 {
+		name += "-after-reset"
+	}
+	r.c.events[name] = true
+}
+
+func (r *runner) endGroup() {
+	if len(r.cur.segs) > 0 {
+		r.done = append(r.done, r.cur)
+	}
+	r.cur = group{}
+	r.pending = nil
+}
+
+func (r *runner) rejected(i string, a *Action, why string) error {
+	r.c.verdict, r.c.reason, r.stop = "rejected", why, true
+	if r.b.Err == nil {
+		return fmt.Errorf("action %s (%s): the Builder accepted a call it documents as invalid (%s); calls %s",
+			i, a.M, why, describe(r.c.Actions))
+	}
+	if ops, err := r.b.Harvest(); err == nil || ops != nil {
+		return fmt.Errorf("action %s (%s): Harvest succeeds although Err = %v", i, a.M, r.b.Err)
+	}
+	return nil
+}
+
+// do performs one action.  pos names the action in messages.
+func (r *runner) do(pos string, a *Action, inBuild bool) error {
+	c, b, m := r.c, r.b, r.m
+	switch a.M {
+	case "Reset", "Build", "Harvest":
+		if inBuild {
+			c.verdict, c.reason, r.stop = "unmodelled", a.M+" inside Build", true
+			return nil
+		}
+	}
+	switch a.M {
+	case "Reset":
+		// "Reset clears the stream and state while preserving the resources
+		// dictionary": what was not harvested is gone, the target version stays
+		r.endGroup()
+		m.reset()
+		b.Reset()
+		r.resets++
+		if b.Err != nil || len(b.Stream) != 0 {
+			return fmt.Errorf("action %s: after Reset Err = %v, %d operators in the stream", pos, b.Err, len(b.Stream))
+		}
+		return nil
+
+	case "Harvest":
+		ops, err := b.Harvest()
+		if err != nil || ops == nil {
+			return fmt.Errorf("action %s: Harvest failed: %v", pos, err)
+		}
+		r.cur.segs = append(r.cur.segs, ops)
+		r.cur.items = append(r.cur.items, r.pending...)
+		r.pending = nil
+		return nil
+
+	case "Build":
+		// "Build resets the builder, runs buildFunc to populate the stream,
+		// and returns the resulting segment"; it fails if the stream cannot
+		// be closed
+		r.endGroup()
+		m.reset()
+		r.resets++
+		var inner error
+		ops := b.Build(func(bb *builder.Builder) error {
+			if bb != b {
+				inner = fmt.Errorf("action %s: Build hands a different Builder to buildFunc", pos)
+				return nil
+			}
+			for k := range a.Sub {
+				if inner = r.do(fmt.Sprintf("%s.%d", pos, k), &a.Sub[k], true); inner != nil || r.stop {
+					return nil
+				}
+			}
+			return nil
+		})
+		if inner != nil {
+			return inner
+		}
+		if r.stop {
+			if c.verdict == "rejected" && (ops != nil || b.Err == nil) {
+				return fmt.Errorf("action %s: Build returns a segment (Err = %v) although a call inside was invalid (%s)", pos, b.Err, c.reason)
+			}
+			return nil
+		}
+		if !m.balanced() {
+			c.verdict, c.reason, r.stop = "rejected", "Build of an unbalanced sequence", true
+			if ops != nil || b.Err == nil {
+				return fmt.Errorf("action %s: Build accepted the unbalanced sequence %s", pos, describe(a.Sub))
+			}
+			return nil
+		}
+		if ops == nil || b.Err != nil {
+			return fmt.Errorf("action %s: Build rejected the valid balanced sequence %s: %v", pos, describe(a.Sub), b.Err)
+		}
+		r.cur.segs = append(r.cur.segs, ops)
+		r.cur.items = append(r.cur.items, r.pending...)
+		r.pending = nil
+		return nil
+	}
+
+	if a.M == "DrawInlineImageRaw" {
+		// the image itself must be inside the domain of part 1
+		ic := Case{Ops: []Op{{Name: gen.Hex(nameImage), Args: []gen.O{{T: "dict", D: a.D}, {T: "str", S: a.S}}}}}
+		if err := inDomain(&ic); err != nil {
+			return fmt.Errorf("GENERATOR DEFECT, action %s: %v", pos, err)
+		}
+	}
+	if a.M == "PushGraphicsState" {
+		if m.obj == ctxText {
+			r.event("q-in-text")
+		}
+		if d := len(m.saved) + 1; d >= 27 && d <= 29 && m.obj == ctxPage {
+			r.event(fmt.Sprintf("q-depth-%d", d))
+		}
+	}
+	v, its, why := m.step(a)
+	if v == unmodelled {
+		c.verdict, c.reason, r.stop = "unmodelled", why, true
+		return nil
+	}
+	var none []*content.Operators
+	if err := call(b, r.fs, a, &none); err != nil {
+		return fmt.Errorf("GENERATOR DEFECT, action %s: %v", pos, err)
+	}
+	if v == reject {
+		return r.rejected(pos, a, why)
+	}
+	if b.Err != nil {
+		return fmt.Errorf("action %s (%s %v): the Builder rejected a valid call: %v; calls %s", pos, a.M, a.F, b.Err, describe(c.Actions))
+	}
+	r.pending = append(r.pending, its...)
+	if len(its) > 0 && r.resets > 0 {
+		c.events["reset-then-continue"] = true
+	}
+	if n := len(m.nest); n > c.maxNesting {
+		c.maxNesting = n
+	}
+	return nil
+}
+
 func checkBuilder(c *BCase) error {
 	version := pdf.V1_7
 	if c.V2 {
 		version = pdf.V2_0
 	}
-	b := builder.New(content.Page, nil, version)
-	m := newModel(c.V2)
-	fs := &fontSet{}
-	var segs []*content.Operators
-	var items []item
 	c.verdict, c.reason, c.names, c.text, c.segments, c.maxNesting = "", "", nil, nil, 0, 0
+	c.events = map[string]bool{}
+	r := &runner{c: c, b: builder.New(content.Page, nil, version), m: newModel(c.V2), fs: &fontSet{}}
+	b, m := r.b, r.m
 
 	for i := range c.Actions {
-		a := &c.Actions[i]
-		if a.M == "DrawInlineImageRaw" {
-			// the image itself must be inside the domain of part 1
-			ic := Case{Ops: []Op{{Name: gen.Hex(nameImage), Args: []gen.O{{T: "dict", D: a.D}, {T: "str", S: a.S}}}}}
-			if err := inDomain(&ic); err != nil {
-				return fmt.Errorf("GENERATOR DEFECT, action %d: %v", i, err)
-			}
+		if err := r.do(fmt.Sprint(i), &c.Actions[i], false); err != nil {
+			return err
 		}
-		v, its, why := m.step(a)
-		if v == unmodelled {
-			c.verdict, c.reason = "unmodelled", why
+		if r.stop {
 			return nil
-		}
-		if err := call(b, fs, a, &segs); err != nil {
-			return fmt.Errorf("GENERATOR DEFECT, action %d: %v", i, err)
-		}
-		if v == reject {
-			c.verdict, c.reason = "rejected", why
-			if b.Err == nil {
-				return fmt.Errorf("action %d (%s): the Builder accepted a call it documents as invalid (%s)", i, a.M, why)
-			}
-			if ops, err := b.Harvest(); err == nil || ops != nil {
-				return fmt.Errorf("action %d (%s): Harvest succeeds although Err = %v", i, a.M, b.Err)
-			}
-			return nil
-		}
-		if b.Err != nil {
-			return fmt.Errorf("action %d (%s %v): the Builder rejected a valid call: %v", i, a.M, a.F, b.Err)
-		}
-		items = append(items, its...)
-		if n := len(m.nest); n > c.maxNesting {
-			c.maxNesting = n
 		}
 	}
 	last, err := b.Harvest()
 	if err != nil {
 		return fmt.Errorf("final Harvest failed: %v", err)
 	}
-	segs = append(segs, last)
-	c.segments = len(segs)
+	r.cur.segs = append(r.cur.segs, last)
+	r.cur.items = append(r.cur.items, r.pending...)
+	r.cur.final = true
+	r.done = append(r.done, r.cur)
 
+	balanced := m.balanced()
+	closeErr := b.Close()
+	if balanced && closeErr != nil {
+		return fmt.Errorf("balanced call sequence %s: Close() = %v", describe(c.Actions), closeErr)
+	}
+	if !balanced && closeErr == nil {
+		return fmt.Errorf("unbalanced call sequence %s: Close() = nil", describe(c.Actions))
+	}
+	if balanced {
+		c.verdict = "balanced"
+	} else {
+		c.verdict = "unbalanced"
+	}
+
+	for gi, g := range r.done {
+		if err := checkGroup(c, gi, g, b.Resources, version, balanced); err != nil {
+			return err
+		}
+	}
+	return nil
+}
+
+// checkGroup checks one harvested content stream: the operators are the ones
+// the calls document, they re-scan to themselves, and they are valid (and,
+// for the last stream, balanced exactly if the model says so) for a fresh
+// State of the Builder's version.
+func checkGroup(c *BCase, gi int, g group, res *content.Resources, version pdf.Version, balanced bool) error {
+	segs := g.segs
+	if len(segs) > c.segments {
+		c.segments = len(segs)
+	}
 	var all []content.Operator
 	for _, s := range segs {
 		all = append(all, s.Ops...)
@@ -676,30 +858,17 @@ func checkBuilder(c *BCase) error {
 		}
 		want[i] = scanned{Name: op.Name, Args: args}
 	}
-	c.names = names
+	c.names = append(c.names, names...)
 
 	// every call emits the operators its documentation names
-	if !matchNames(items, names) {
-		return fmt.Errorf("harvested operators %q do not match the calls %s", names, describe(c.Actions))
-	}
-
-	balanced := m.balanced()
-	closeErr := b.Close()
-	if balanced && closeErr != nil {
-		return fmt.Errorf("balanced call sequence %s: Close() = %v; stream %q", describe(c.Actions), closeErr, names)
-	}
-	if !balanced && closeErr == nil {
-		return fmt.Errorf("unbalanced call sequence %s: Close() = nil; stream %q", describe(c.Actions), names)
-	}
-	if balanced {
-		c.verdict = "balanced"
-	} else {
-		c.verdict = "unbalanced"
+	if !matchNames(g.items, names) {
+		return fmt.Errorf("stream %d: harvested operators %q do not match the calls %s", gi, names, describe(c.Actions))
 	}
 
 	// the harvested stream re-scans to the same operators
 	var text []byte
 	var got []scanned
+	var err error
 	if len(segs) == 1 {
 		rc, err := segs[0].RawBytes()
 		if err != nil {
@@ -728,18 +897,26 @@ func checkBuilder(c *BCase) error {
 			return fmt.Errorf("re-scan of %d segments: %v", len(ps), err)
 		}
 	}
-	c.text = text
-	if err := compareOps("builder stream", want, got, text); err != nil {
+	if g.final || c.text == nil {
+		c.text = text
+	}
+	if err := compareOps(fmt.Sprintf("builder stream %d", gi), want, got, text); err != nil {
 		return err
 	}
 
-	// ... which are valid in a fresh state ...
-	st := content.NewState(content.Page, b.Resources)
+	// ... which are valid for a fresh state of the same version: ApplyOperator
+	// rejects exactly what the Builder must have rejected
+	st := content.NewState(content.Page, res)
 	st.Version = version
 	for i, op := range got {
 		if err := st.ApplyOperator(op.Name, op.Args); err != nil {
-			return fmt.Errorf("replay: operator %d (%s) of %q is rejected by a fresh State: %v", i, op.Name, clip(text), err)
+			return fmt.Errorf("replay of stream %d: operator %d (%s) of %q is rejected by a fresh State of version %s: %v; calls %s",
+				gi, i, op.Name, clip(text), version, err, describe(c.Actions))
 		}
+	}
+	if !g.final {
+		// harvested before a Reset: a prefix of a valid stream, nothing more
+		return nil
 	}
 	// ... and balanced
 	closers := st.ClosingOperators()
@@ -760,7 +937,10 @@ func describe(as []Action) string {
 			sb.WriteByte(' ')
 		}
 		sb.WriteString(a.M)
-		if i > 60 {
+		if a.M == "Build" {
+			sb.WriteString(describe(a.Sub))
+		}
+		if i > 80 {
 			sb.WriteString(" ...")
 			break
 		}
@@ -920,20 +1100,51 @@ func pickMethod(t *rapid.T, m *model, wild bool) string {
 	return rapid.SampledFrom(methods).Draw(t, "method")
 }
 
-func genBCase(t *rapid.T) BCase {
-	c := BCase{V2: rapid.Bool().Draw(t, "v2")}
-	m := newModel(c.V2)
-	n := rapid.IntRange(0, 40).Draw(t, "n")
-	rejected := false
-	wildAt := -1 // position of a call which may be invalid
-	if n > 0 && rapid.IntRange(0, 3).Draw(t, "haswild") == 0 {
-		wildAt = rapid.IntRange(0, n-1).Draw(t, "wildat")
+// closers returns the calls which close what the model has open, innermost
+// first, and applies them to the model.
+func closers(t *rapid.T, m *model) []Action {
+	var out []Action
+	if m.obj == ctxPath || m.obj == ctxClip {
+		a := Action{M: rapid.SampledFrom([]string{"EndPath", "Fill", "Stroke", "CloseFillAndStrokeEvenOdd"}).Draw(t, "paint")}
+		m.step(&a)
+		out = append(out, a)
 	}
-	for len(c.Actions) < n && !rejected {
-		wild := len(c.Actions) == wildAt
+	for len(m.nest) > 0 {
+		a := Action{M: map[byte]string{'q': "PopGraphicsState", 'T': "TextEnd", 'M': "MarkedContentEnd"}[m.top()]}
+		if v, _, _ := m.step(&a); v != accept {
+			break
+		}
+		out = append(out, a)
+	}
+	return out
+}
+
+// genSeq draws up to n calls which the model accepts (one of them, at
+// position wildAt, may be invalid) and advances the model.  At the top level
+// Reset and Build calls are mixed in.
+func genSeq(t *rapid.T, m *model, n, wildAt int, top bool) (acts []Action, rejected bool) {
+	for len(acts) < n && !rejected {
+		if top {
+			switch rapid.IntRange(0, 49).Draw(t, "restart") {
+			case 0:
+				a := Action{M: "Reset"}
+				m.step(&a)
+				acts = append(acts, a)
+				continue
+			case 1:
+				a, rej := genBuild(t, m)
+				acts = append(acts, a)
+				rejected = rej
+				continue
+			}
+		}
+		wild := len(acts) == wildAt
 		var a Action
 		for try := 0; ; try++ {
 			a = drawAction(t, pickMethod(t, m, wild), wild)
+			if !top && a.M == "Harvest" {
+				continue
+			}
 			v, _, _ := m.clone().step(&a)
 			if v == accept || (wild && v == reject) {
 				break
@@ -944,23 +1155,131 @@ func genBCase(t *rapid.T) BCase {
 			}
 		}
 		v, _, _ := m.step(&a)
-		c.Actions = append(c.Actions, a)
+		acts = append(acts, a)
 		rejected = v == reject
 	}
-	if !rejected && rapid.IntRange(0, 7).Draw(t, "close") != 0 {
-		// close what is open, innermost first
-		if m.obj == ctxPath || m.obj == ctxClip {
-			a := Action{M: rapid.SampledFrom([]string{"EndPath", "Fill", "Stroke", "CloseFillAndStrokeEvenOdd"}).Draw(t, "paint")}
-			m.step(&a)
-			c.Actions = append(c.Actions, a)
-		}
-		for len(m.nest) > 0 {
-			a := Action{M: map[byte]string{'q': "PopGraphicsState", 'T': "TextEnd", 'M': "MarkedContentEnd"}[m.top()]}
-			if v, _, _ := m.step(&a); v != accept {
-				break
+	return acts, rejected
+}
+
+// genBuild draws a Build call.  Build starts from a reset Builder; when it
+// succeeds the graphics state simply continues, so the model continues with
+// the state at the end of the sequence.
+func genBuild(t *rapid.T, m *model) (Action, bool) {
+	m.reset()
+	n := rapid.IntRange(0, 12).Draw(t, "nbuild")
+	wildAt := -1
+	if n > 0 && rapid.IntRange(0, 7).Draw(t, "buildwild") == 0 {
+		wildAt = rapid.IntRange(0, n-1).Draw(t, "buildwildat")
+	}
+	sub, rejected := genSeq(t, m, n, wildAt, false)
+	if !rejected && rapid.IntRange(0, 19).Draw(t, "buildclose") != 0 {
+		sub = append(sub, closers(t, m)...)
+	}
+	return Action{M: "Build", Sub: sub}, rejected || !m.balanced()
+}
+
+// qScenario draws a case around the q/Q rules of PDF 1.x: 26-29 nested q and
+// q inside a text object, before or after the Builder went through Harvest,
+// Reset or Build.
+func qScenario(t *rapid.T, c *BCase, m *model) {
+	add := func(dst *[]Action, mm *model, name string) bool {
+		a := Action{M: name}
+		v, _, _ := mm.step(&a)
+		*dst = append(*dst, a)
+		return v == accept
+	}
+	body := func(dst *[]Action, mm *model) bool {
+		k := rapid.SampledFrom([]int{0, 1, 26, 27, 28, 29}).Draw(t, "qdepth")
+		for range k {
+			if !add(dst, mm, "PushGraphicsState") {
+				return false
 			}
-			c.Actions = append(c.Actions, a)
 		}
+		switch rapid.IntRange(0, 3).Draw(t, "qtail") {
+		case 0:
+			if !add(dst, mm, "TextBegin") || !add(dst, mm, "PushGraphicsState") {
+				return false
+			}
+			if rapid.Bool().Draw(t, "qtext") {
+				a := drawAction(t, "TextSetFont", false)
+				mm.step(&a)
+				*dst = append(*dst, a)
+				a = drawAction(t, "TextShowRaw", false)
+				mm.step(&a)
+				*dst = append(*dst, a)
+			}
+		case 1:
+			if !add(dst, mm, "PushGraphicsState") {
+				return false
+			}
+		case 2:
+			r := drawAction(t, "Rectangle", false)
+			mm.step(&r)
+			*dst = append(*dst, r)
+			if !add(dst, mm, "PushGraphicsState") { // q inside a path: invalid in every version
+				return false
+			}
+		}
+		return true
+	}
+
+	pre, rejected := genSeq(t, m, rapid.IntRange(0, 4).Draw(t, "npre"), -1, false)
+	c.Actions = append(c.Actions, pre...)
+	if rejected {
+		return
+	}
+	switch rapid.SampledFrom([]string{"none", "Reset", "Harvest", "Harvest+Reset", "in-Build", "after-Build", "after-Build", "Reset"}).Draw(t, "restartkind") {
+	case "none":
+		c.Actions = append(c.Actions, closers(t, m)...)
+	case "Reset":
+		add(&c.Actions, m, "Reset")
+	case "Harvest":
+		c.Actions = append(c.Actions, closers(t, m)...)
+		add(&c.Actions, m, "Harvest")
+	case "Harvest+Reset":
+		add(&c.Actions, m, "Harvest")
+		add(&c.Actions, m, "Reset")
+	case "in-Build":
+		m.reset()
+		var sub []Action
+		ok := body(&sub, m)
+		if ok {
+			sub = append(sub, closers(t, m)...)
+		}
+		c.Actions = append(c.Actions, Action{M: "Build", Sub: sub})
+		if !ok || !m.balanced() {
+			return
+		}
+	case "after-Build":
+		m.reset()
+		sub, rej := genSeq(t, m, rapid.IntRange(0, 5).Draw(t, "nsub"), -1, false)
+		sub = append(sub, closers(t, m)...)
+		c.Actions = append(c.Actions, Action{M: "Build", Sub: sub})
+		if rej || !m.balanced() {
+			return
+		}
+	}
+	if body(&c.Actions, m) && rapid.IntRange(0, 7).Draw(t, "close") != 0 {
+		c.Actions = append(c.Actions, closers(t, m)...)
+	}
+}
+
+func genBCase(t *rapid.T) BCase {
+	c := BCase{V2: rapid.IntRange(0, 2).Draw(t, "v2") == 0}
+	m := newModel(c.V2)
+	if rapid.IntRange(0, 7).Draw(t, "qscenario") == 0 {
+		qScenario(t, &c, m)
+		return c
+	}
+	n := rapid.IntRange(0, 40).Draw(t, "n")
+	wildAt := -1 // position of a call which may be invalid
+	if n > 0 && rapid.IntRange(0, 3).Draw(t, "haswild") == 0 {
+		wildAt = rapid.IntRange(0, n-1).Draw(t, "wildat")
+	}
+	var rejected bool
+	c.Actions, rejected = genSeq(t, m, n, wildAt, true)
+	if !rejected && rapid.IntRange(0, 7).Draw(t, "close") != 0 {
+		c.Actions = append(c.Actions, closers(t, m)...)
 	}
 	return c
 }
@@ -996,6 +1315,9 @@ var builderProp = &vt.Prop[BCase]{
 			case "w", "J", "j", "M", "d":
 				set["line-style"] = true
 			}
+		}
+		for e := range c.events {
+			set[e] = true
 		}
 		if c.segments > 1 {
 			set["several-segments"] = true
